@@ -441,7 +441,7 @@ impl Search {
         let moves = self.board.get_all_moves();
         let mut total_legal_moves = 0;
 
-        let mut best_ply = moves[0];
+        let mut best_ply = moves.first().copied().unwrap_or_default();
         let mut pvs = false;
         let killers = self.info.killers[usize::from(self.info.depth)];
         for mv in MoveOrderer::new(&moves, self.board.zkey, &killers) {
